@@ -1,6 +1,6 @@
 """C27 — Policy front ends are total.
 
-TABLE pattern with PolicyFront.tla as enumerator and oracle: TLC enumerates seven families of
+TABLE pattern with PolicyFront.tla as enumerator and oracle: TLC enumerates nine families of
 texts (untyped expression skeletons, every statement kind in every statement context,
 defective definition sets, token-level mutations of generated programs and of the repository's
 policy documents, Markdown front-matter/fence structure, deep nesting) and the spec's
@@ -18,7 +18,7 @@ META = {
     "level": "exploration",
     "engine": "vmtable",
     "technique": "TLA+ spec PolicyFront (generators of expression/statement/definition skeletons, token-mutation classes, Markdown structure classes, the compiler's statement-placement table) enumerated with TLC; every cell rendered to text and executed against parse_policy_document / parse_policy_str / parse_expression and Compiler::compile (TABLE binding); a panic or abort is a violation, the spec's parse/compile verdicts are compared as drift",
-    "text": "TLC enumerates: every expression atom, every unary constructor over each atom and every binary constructor over two atoms (no type filter; deeper nesting by seeded simulation), each parsed alone and compiled inside a host function; all 16 statement kinds in all 8 statement contexts with the compiler's placement table as oracle; ~65 definition sets with one defect each (duplicates of every kind, recursive structs, duplicate fields, undefined names, wrong arity, missing command blocks, reserved words); delete/duplicate/swap/insert-delimiter/replace mutations at every token of two generated programs and at sampled tokens of every policy document in the repository; 13 front-matter x 15 fence x 3 preceding-text x 8 body x 2 line-ending Markdown documents; 13 recursive constructs nested 64/512/4096 deep.  Decides: each call returns a result or a structured error, no panic, no abort.  Display of errors is exercised in its own catch and reported separately (adjacent, outside the property).",
+    "text": "TLC enumerates: every expression atom, every unary constructor over each atom and every binary constructor over two atoms (no type filter; deeper nesting by seeded simulation), each parsed alone and compiled inside a host function; all 16 statement kinds in all 8 statement contexts with the compiler's placement table as oracle; ~65 definition sets with one defect each (duplicates of every kind, recursive structs, duplicate fields, undefined names, wrong arity, missing command blocks, reserved words); every callable kind (function, builtin, finish function, action, recall block as statement and as expression) with fewer/equal/more/ill-typed arguments and struct/effect/command/fact literals with missing/surplus/repeated fields; match over types with just under/exactly/over 2^64 inhabitants, bare and under option/result; delete/duplicate/swap/insert-delimiter/replace mutations at every token of two generated programs and at sampled tokens of every policy document in the repository; 13 front-matter x 15 fence x 3 preceding-text x 8 body x 2 line-ending Markdown documents; 13 recursive constructs nested 64/512/4096 deep.  Decides: each call returns a result or a structured error, no panic, no abort.  Display of errors is exercised in its own catch and reported separately (adjacent, outside the property).",
     "note": "Exploration: 'all texts' is approximated by the generated families; compile verdicts are predicted only for the statement-placement and definition-defect families.  Inputs nested >= 4096 levels abort the process by stack overflow (recursive-descent parser/compiler without a depth limit) — listed as a known finding and run in isolated processes so that every other cell is still decided.",
 }
 
@@ -109,7 +109,7 @@ def cases_of(cells, tb, docs):
             out.append(dict(base, entry="expr", text=e, exp={"parse": c["parse"], "compile": "any"}, depth=x["d"]))
             out.append(dict(base, entry="str", text=join(pre + host["pre"] + c["e"] + host["post"]),
                             exp={"parse": c["parse"], "compile": "any"}, depth=x["d"], hosted=True))
-        elif fam in ("stmt", "defs", "mut"):
+        elif fam in ("stmt", "defs", "mut", "arity", "card"):
             out.append(dict(base, entry="str", text=join(c["t"]), exp={"parse": c["parse"], "compile": c["compile"]}))
         elif fam == "doc":
             eol = "\r\n" if c["eol"] == "crlf" else "\n"
@@ -138,7 +138,7 @@ def klass(case):
         return "nest:%s:%s" % (c.get("kind"), c.get("depth"))
     if case.get("fam") == "expr":
         return "expr:%s" % c.get("op")
-    return "%s:%s" % (case.get("fam"), c.get("cls") or c.get("name") or c.get("k") or c.get("fence") or "")
+    return "%s:%s" % (case.get("fam"), c.get("cls") or c.get("name") or c.get("k") or c.get("fence") or c.get("kind") or c.get("ty") or "")
 
 
 CHUNK = 20000  # cases per engine process (keeps start-up short, so the watchdog measures the call)
@@ -277,7 +277,7 @@ def run(ctx):
     fams = {}
     for x in cells:
         fams[x["fam"]] = fams.get(x["fam"], 0) + 1
-    for f in ("expr", "stmt", "defs", "mut", "repo", "doc", "nest"):
+    for f in ("expr", "stmt", "defs", "arity", "card", "mut", "repo", "doc", "nest"):
         if not fams.get(f):
             raise verif.ToolError("vacuous: family %s produced no cells" % f)
 
